@@ -265,6 +265,62 @@ theorem pos_SubscriptSpecifierKeyword (kp rp : Nat) (kw : Bytes) (e : Node) (pe 
     prow_SubscriptSpecifierKeyword.1 prow_SubscriptSpecifierKeyword.2]
   pos_eval []
 
+/-! ## CASE and IF -/
+
+theorem prow_CaseExpr :
+    PT.go.lookup "CaseExpr" = some (.term ⟨.field "Case", []⟩, .term ⟨.field "EndPos", [(.lit 3)]⟩) ∧
+    PT.fieldsOf "CaseExpr" = [⟨"Case", .pos, "token.Pos"⟩, ⟨"EndPos", .pos, "token.Pos"⟩, ⟨"Expr", .node, "Expr"⟩, ⟨"Whens", .nodes, "[]*CaseWhen"⟩, ⟨"Else", .node, "*CaseElse"⟩] := by
+  decide +kernel
+
+/-- `Case`, `EndPos + 3`, whatever the children are (they only have to have positions themselves) -/
+theorem pos_CaseExpr (cp ep : Nat) (kids : Kids) (ks : List KidPE) (hk : goKids PT kids = some ks) :
+    goPosEnd PT (nCaseExpr cp ep kids) = some ((cp : Int), (ep : Int) + 3) := by
+  rw [nCaseExpr, goPosEnd_mk hk prow_CaseExpr.1 prow_CaseExpr.2]
+  pos_eval []
+
+theorem prow_CaseWhen :
+    PT.go.lookup "CaseWhen" = some (.term ⟨.field "When", []⟩, .term ⟨.nodeEnd (.atom (.wrapNode "Then")), []⟩) ∧
+    PT.fieldsOf "CaseWhen" = [⟨"When", .pos, "token.Pos"⟩, ⟨"Cond", .node, "Expr"⟩, ⟨"Then", .node, "Expr"⟩] := by
+  decide +kernel
+
+theorem pos_CaseWhen (wp : Nat) (c t : Node) (pc ec pt et : Int) (hc : goPosEnd PT c = some (pc, ec))
+    (ht : goPosEnd PT t = some (pt, et)) : goPosEnd PT (nCaseWhen wp c t) = some ((wp : Int), et) := by
+  rw [nCaseWhen, goPosEnd_mk (ks := [⟨"Cond", none, pc, ec⟩, ⟨"Then", none, pt, et⟩]) (by simp [goKids, hc, ht])
+    prow_CaseWhen.1 prow_CaseWhen.2]
+  pos_eval []
+
+theorem prow_CaseElse :
+    PT.go.lookup "CaseElse" = some (.term ⟨.field "Else", []⟩, .term ⟨.nodeEnd (.atom (.wrapNode "Expr")), []⟩) ∧
+    PT.fieldsOf "CaseElse" = [⟨"Else", .pos, "token.Pos"⟩, ⟨"Expr", .node, "Expr"⟩] := by
+  decide +kernel
+
+theorem pos_CaseElse (p : Nat) (e : Node) (pe ee : Int) (he : goPosEnd PT e = some (pe, ee)) :
+    goPosEnd PT (nCaseElse p e) = some ((p : Int), ee) := by
+  rw [nCaseElse, goPosEnd_mk (ks := [⟨"Expr", none, pe, ee⟩]) (by simp [goKids, he]) prow_CaseElse.1 prow_CaseElse.2]
+  pos_eval []
+
+theorem prow_IfExpr :
+    PT.go.lookup "IfExpr" = some (.term ⟨.field "If", []⟩, .term ⟨.field "Rparen", [(.lit 1)]⟩) ∧
+    PT.fieldsOf "IfExpr" = [⟨"If", .pos, "token.Pos"⟩, ⟨"Rparen", .pos, "token.Pos"⟩, ⟨"Expr", .node, "Expr"⟩, ⟨"TrueResult", .node, "Expr"⟩, ⟨"ElseResult", .node, "Expr"⟩] := by
+  decide +kernel
+
+theorem pos_IfExpr (ifp rp : Nat) (c t e : Node) (pc ec pt et pe ee : Int) (hc : goPosEnd PT c = some (pc, ec))
+    (ht : goPosEnd PT t = some (pt, et)) (he : goPosEnd PT e = some (pe, ee)) :
+    goPosEnd PT (nIfExpr ifp rp c t e) = some ((ifp : Int), (rp : Int) + 1) := by
+  rw [nIfExpr, goPosEnd_mk (ks := [⟨"Expr", none, pc, ec⟩, ⟨"TrueResult", none, pt, et⟩, ⟨"ElseResult", none, pe, ee⟩])
+    (by simp [goKids, hc, ht, he]) prow_IfExpr.1 prow_IfExpr.2]
+  pos_eval []
+/-! ## array literals -/
+
+theorem prow_ArrayLiteral :
+    PT.go.lookup "ArrayLiteral" = some (.posChoice [⟨.field "Array", []⟩, ⟨.field "Lbrack", []⟩], .term ⟨.field "Rbrack", [(.lit 1)]⟩) ∧
+    PT.fieldsOf "ArrayLiteral" = [⟨"Array", .pos, "token.Pos"⟩, ⟨"Lbrack", .pos, "token.Pos"⟩, ⟨"Rbrack", .pos, "token.Pos"⟩, ⟨"Type", .node, "Type"⟩, ⟨"Values", .nodes, "[]Expr"⟩] := by
+  decide +kernel
+
+theorem pos_ArrayLiteral (lb rb : Nat) (kids : Kids) (ks : List KidPE) (hk : goKids PT kids = some ks) :
+    goPosEnd PT (nArrayLiteral lb rb kids) = some ((lb : Int), (rb : Int) + 1) := by
+  rw [nArrayLiteral, goPosEnd_mk hk prow_ArrayLiteral.1 prow_ArrayLiteral.2]
+  pos_eval [evalGoPosAlts, invalid]
 /-! ## types -/
 
 theorem prow_SimpleType :
@@ -337,4 +393,17 @@ theorem pos_StructField_none (t : Node) (pt et : Int) (ht : goPosEnd PT t = some
     prow_StructField.1 prow_StructField.2]
   pos_eval []
 
+/-! ## CAST -/
+
+theorem prow_CastExpr :
+    PT.go.lookup "CastExpr" = some (.term ⟨.field "Cast", []⟩, .term ⟨.field "Rparen", [(.lit 1)]⟩) ∧
+    PT.fieldsOf "CastExpr" = [⟨"Cast", .pos, "token.Pos"⟩, ⟨"Rparen", .pos, "token.Pos"⟩, ⟨"Safe", .bool, "bool"⟩, ⟨"Expr", .node, "Expr"⟩, ⟨"Type", .node, "Type"⟩] := by
+  decide +kernel
+
+theorem pos_CastExpr (cp rp : Nat) (safe : Bool) (e t : Node) (pe ee pt et : Int) (he : goPosEnd PT e = some (pe, ee))
+    (ht : goPosEnd PT t = some (pt, et)) :
+    goPosEnd PT (nCastExpr cp rp safe e t) = some ((cp : Int), (rp : Int) + 1) := by
+  rw [nCastExpr, goPosEnd_mk (ks := [⟨"Expr", none, pe, ee⟩, ⟨"Type", none, pt, et⟩]) (by simp [goKids, he, ht])
+    prow_CastExpr.1 prow_CastExpr.2]
+  pos_eval []
 end MF.Bridge
